@@ -77,7 +77,9 @@ pub fn worker(a: &Args) -> i32 {
                             seen.push(String::from_utf8_lossy(kv.key()).parse().unwrap_or(-1));
                         }
                     }
-                    b.put(format!("{:04}", id).into_bytes(), vec![b'x'; 300]).map_err(|e| format!("{}", e))?;
+                    // (9000 bytes: the first commit on the 8-page file has to extend it, so that the
+                    // resize path runs while other openers wait for the lock)
+                    b.put(format!("{:04}", id).into_bytes(), vec![b'x'; 9000]).map_err(|e| format!("{}", e))?;
                 }
                 tx.commit().map_err(|e| format!("{}", e))?;
                 // the handle is cloned for a helper thread (documented use); dropping the clone
